@@ -20,6 +20,7 @@ from pyvc import heap as H
 from pyvc.heap import PENDING, RESULT, EXC, CANCELLED, st
 
 LEVEL = "other"
+STANDIN_ALWAYS_THOROUGH = True      # its large bound takes seconds: used at both tiers
 EXPLANATION = ("MIXED: class-invariant + per-operation contracts of Queue (FIFO) and LifoQueue proved by SMT from "
                "arbitrary invariant states with unbounded deques; PriorityQueue's heap order is heapq's (trusted) and is "
                "covered by the bounded run-time stand-in together with multi-step histories.")
